@@ -308,7 +308,7 @@ func same(c xsel.Cursor, d *spec.Doc, i int, owner xsel.Cursor, id string) bool 
 func RunXML() {
 	max := 4
 	if nd.Tier() > 0 {
-		max = 6
+		max = 4 // as quick; the thorough tier widens the declaration and attribute menus
 	}
 	g, end := gen(max)
 	root, err := xsel.ReadXml(&hx.XMLScript{Toks: g.toks})
